@@ -431,7 +431,30 @@ def concrete_violation(name):
     return False, ''
 
 
+def concrete_dataset_violation(name):
+    """real code: deterministic in (size, seed), `size` rows, global state untouched"""
+    fn = getattr(DS, name.split('.')[-1])
+    outs = []
+    for gseed in (1, 2):
+        np.random.seed(gseed)
+        st0 = np.random.get_state()
+        a = fn(size=6, seed=11)
+        st1 = np.random.get_state()
+        if not (np.array_equal(st0[1], st1[1]) and st0[2] == st1[2]):
+            return True, f'{name}: the global NumPy random state changed'
+        if len(a) != 6:
+            return True, f'{name}: {len(a)} rows for size=6'
+        outs.append(np.asarray(a, dtype=float))
+    if not np.allclose(outs[0], outs[1], equal_nan=True):
+        return True, f'{name}: output depends on the global random state (not a function of (size, seed))'
+    return False, ''
+
+
 def replay(d):
+    if d['name'].startswith('datasets.'):
+        bad, detail = concrete_dataset_violation(d['name'])
+        print(detail)
+        return bad
     bad, detail = concrete_violation(d['name'])
     print(detail)
     return bad
@@ -472,6 +495,8 @@ def run(tier, seed):
             if bad:
                 if r['name'] in SAMPLERS:
                     b, detail = concrete_violation(r['name'])
+                elif r['name'].startswith('datasets.'):
+                    b, detail = concrete_dataset_violation(r['name'])
                 else:
                     b, detail = False, ''
                 if b:
@@ -484,5 +509,10 @@ def run(tier, seed):
         n += 1
         if b:
             ck.violation(name.split(' ')[0], detail, {'name': name})
+    for dn in DATASETS:
+        b, detail = concrete_dataset_violation('datasets.' + dn)
+        n += 1
+        if b:
+            ck.violation('datasets.' + dn, detail, {'name': 'datasets.' + dn})
     ck.traces_validated = n
     return ck.finish()
